@@ -30,6 +30,7 @@ It3   == {"i1", "i2", "i3"}
 OpsAll   == {"grow", "iter", "view", "xform", "dump", "io", "copy"}
 OpsNoCopy == {"grow", "iter", "view", "xform", "dump", "io"}
 OpsMix   == {"grow", "iter", "view", "xform", "dump", "copy"}
+OpsLive  == {"append", "view", "xform"}
 OpsCopy  == {"copy", "view", "xform"}
 OpsCopyV == {"copy", "view"}
 OpsCopyX == {"copy", "xform"}
@@ -52,6 +53,7 @@ DevCopyW    == {"CopyLosesWeights"}
 DevShare    == {"CopySharesBuffers"}
 DevStack    == {"StackBroadcasts"}
 DevYield    == {"YieldReusesView"}
+DevOrphan   == {"GrowthOrphansViews"}
 
 View == sv
 Emit == PrintT(ToJson([from |-> sv, act |-> last', to |-> sv', obs |-> Obs']))
